@@ -188,6 +188,24 @@ func genConcSameKind(b *builder, c *corpus, nSites int) {
 	}
 }
 
+// F4c: ONE caller, several modules, the same back end kind again and again:
+// what a back end keeps from one compilation to the next inside a process
+// (memo tables keyed too coarsely, recycled writers/namers) - the analogue of
+// the reused spirv.Backend for the back ends that have no instance.
+func genSeqSameKind(b *builder, c *corpus, nSites int) {
+	kind := pick(b.r, backendKinds)
+	t := b.task()
+	var mods []int
+	for i := 0; i < 2+b.r.intn(3); i++ {
+		m, _ := b.lower(t, pick(b.r, c.lowerable))
+		mods = append(mods, m)
+	}
+	for i := 0; i < 3+b.r.intn(5); i++ {
+		b.add(t, b.backendOp(kind, pick(b.r, mods)))
+	}
+	b.drawFaults(nSites, false)
+}
+
 // F5: one operation under a map-order fault (all sites / one site).
 func genMapOrder(b *builder, c *corpus, nSites int) {
 	t := b.task()
@@ -275,6 +293,10 @@ func genResolve(b *builder, c *corpus, nSites int) {
 				after = []proto.Ref{lref}
 			}
 			rm, _ := b.resolve(t, m, cs, after...)
+			if b.r.chance(0.3) {
+				// the caller tidies up its resolved copy before compiling it
+				b.add(t, proto.Op{Kind: pick(b.r, []string{proto.OpCompact, proto.OpCompact, proto.OpInline}), Mod: rm})
+			}
 			for k := 0; k < b.r.intn(3); k++ {
 				b.add(t, b.backendOp(pick(b.r, backendKinds), rm))
 			}
@@ -402,6 +424,7 @@ var familiesC12Thorough = []family{
 	{"conc-shared", 22, genConcShared},
 	{"conc-separate", 12, genConcSeparate},
 	{"conc-same-kind", 10, genConcSameKind},
+	{"seq-same-kind", 8, genSeqSameKind},
 	{"maporder", 14, genMapOrder},
 	{"private", 6, genPrivate},
 	{"scribble", 6, genScribble},
@@ -414,6 +437,7 @@ var familiesC12 = []family{
 	{"conc-shared", 22, genConcShared},
 	{"conc-separate", 12, genConcSeparate},
 	{"conc-same-kind", 10, genConcSameKind},
+	{"seq-same-kind", 8, genSeqSameKind},
 	{"maporder", 14, genMapOrder},
 	{"private", 6, genPrivate},
 	{"scribble", 6, genScribble},
